@@ -500,15 +500,22 @@ theorem gobDec_data (st : St) (shape strides : List Int) (o : Order) (dt : Strin
   · simp [hs]
   · simp [hs, throwErr]
 
-theorem gob_dec_enc (st : St) (t : Dense) (rec : Rec) (hm : t.mask = none) (hs : isScalar t.shape = false)
+/-- `sanity()` accepts a window exactly when it is as long as the tensor is large, or the tensor is
+    of rank 0 -/
+theorem sanityOk_iff (shape : Shape) (n : Nat) :
+    sanityOk shape n = true ↔ ((n : Int) = totalSize shape ∨ isScalar shape = true) := by
+  simp [sanityOk]
+
+theorem gob_dec_enc (st : St) (t : Dense) (rec : Rec) (hm : t.mask = none)
     (h : gobEnc st t = .ok rec) :
     ∃ cells, t.rawCells st = .ok cells ∧
-      (((t.win.len : Int) = totalSize t.ap.shape →
+      ((((t.win.len : Int) = totalSize t.ap.shape ∨ isScalar t.ap.shape = true) →
           ∃ st' d, gobDec st rec = .ok (st', d) ∧
             Decoded st st' d { shape := t.ap.shape, strides := t.ap.strides, fin := true, o := t.ap.o } t.dt cells) ∧
-       ((t.win.len : Int) ≠ totalSize t.ap.shape → ∃ tag, gobDec st rec = .error (.err tag))) := by
+       (((t.win.len : Int) ≠ totalSize t.ap.shape ∧ isScalar t.ap.shape = false) →
+          ∃ tag, gobDec st rec = .error (.err tag))) := by
   unfold gobEnc at h
-  simp only [maskCells, hm, hs, bind, Except.bind, pure, Except.pure] at h
+  simp only [maskCells, hm, bind, Except.bind, pure, Except.pure] at h
   cases hr : t.rawCells st with
   | error e => simp [hr] at h
   | ok cells =>
@@ -516,36 +523,22 @@ theorem gob_dec_enc (st : St) (t : Dense) (rec : Rec) (hm : t.mask = none) (hs :
     injection h with h
     subst h
     have hlen := rawCells_length st t cells hr
-    have hs' : isScalar t.ap.shape = false := hs
     refine ⟨cells, rfl, ?_, ?_⟩
     · intro hw
       have hsan : sanityOk t.ap.shape cells.length = true := by
-        simp [sanityOk, hlen, hw]
+        rw [sanityOk_iff, hlen]; exact hw
       simp only [Dense.shape, Dense.strides]
       rw [gobDec_data, if_pos hsan]
       exact ⟨_, _, rfl, ⟨rfl, rfl, rfl, rfl, rfl, ⟨rfl, rfl⟩⟩⟩
     · intro hw
       have hsan : ¬ sanityOk t.ap.shape cells.length = true := by
-        simp [sanityOk, hlen, hw, hs']
+        rw [sanityOk_iff, hlen]
+        intro h'
+        rcases h' with h' | h'
+        · exact hw.1 h'
+        · rw [hw.2] at h'; cases h'
       simp only [Dense.shape, Dense.strides]
       rw [gobDec_data, if_neg hsan]
-      exact ⟨_, rfl⟩
-
-/-- F73: whatever a rank-0 tensor holds, its gob encoding makes the reader panic -/
-theorem gob_scalar_unreadable (st : St) (t : Dense) (rec : Rec) (hs : isScalar t.shape = true)
-    (h : gobEnc st t = .ok rec) : ∃ tag, gobDec st rec = .error (.panic tag) := by
-  unfold gobEnc at h
-  simp only [hs, bind, Except.bind, pure, Except.pure, if_true] at h
-  cases hmk : maskCells st t with
-  | error e => simp [hmk] at h
-  | ok mk =>
-    simp only [hmk] at h
-    cases hg : st.get t.win 0 with
-    | error e => simp [hg] at h
-    | ok v =>
-      simp only [hg] at h
-      injection h with h
-      subst h
       exact ⟨_, rfl⟩
 
 /-! ### gob with a mask -/
@@ -559,14 +552,14 @@ theorem maskCells_length (st : St) (t : Dense) (m : Win) (mc : List Bool) (hm : 
 /-- gob carries the mask: a masked tensor (mask as long as the window) whose window is its size reads
     back with the same metadata, a fresh copy of the window and a fresh copy of the whole mask. -/
 theorem gob_dec_enc_masked (st : St) (t : Dense) (rec : Rec) (m : Win) (hm : t.mask = some m)
-    (hml : m.len = t.win.len) (hpos : 0 < t.win.len) (hs : isScalar t.shape = false)
-    (hw : (t.win.len : Int) = totalSize t.ap.shape) (h : gobEnc st t = .ok rec) :
+    (hml : m.len = t.win.len) (hpos : 0 < t.win.len)
+    (hw : (t.win.len : Int) = totalSize t.ap.shape ∨ isScalar t.ap.shape = true) (h : gobEnc st t = .ok rec) :
     ∃ cells mc st' d, t.rawCells st = .ok cells ∧ maskCells st t = .ok mc ∧ gobDec st rec = .ok (st', d) ∧
       d.ap = { shape := t.ap.shape, strides := t.ap.strides, fin := true, o := t.ap.o } ∧ d.dt = t.dt ∧
       FreshOf st st' d cells ∧
       d.mask = some ⟨st.mheap.size, 0, mc.length, mc.length⟩ ∧ st'.mheap = st.mheap.push mc.toArray := by
   unfold gobEnc at h
-  simp only [hs, bind, Except.bind, pure, Except.pure] at h
+  simp only [bind, Except.bind, pure, Except.pure] at h
   cases hmk : maskCells st t with
   | error e => simp [hmk] at h
   | ok mc =>
@@ -579,13 +572,14 @@ theorem gob_dec_enc_masked (st : St) (t : Dense) (rec : Rec) (m : Win) (hm : t.m
       subst h
       have hlen := rawCells_length st t cells hr
       have hmlen := maskCells_length st t m mc hm hmk
-      have hsan : sanityOk t.ap.shape cells.length = true := by simp [sanityOk, hlen, hw]
+      have hsan : sanityOk t.ap.shape cells.length = true := by
+        rw [sanityOk_iff, hlen]; exact hw
       refine ⟨cells, mc, ?_⟩
       unfold gobDec
       have h2 : mc.length = cells.length := by omega
       have hc : 0 < cells.length := by omega
       simp only [Dense.shape, Dense.strides, St.alloc, St.allocMask, bind, Except.bind, pure, Except.pure,
-        Bool.false_eq_true, if_false, h2, hsan]
+        h2, hsan]
       simp [hc]
       exact ⟨_, _, ⟨rfl, rfl⟩, rfl, rfl, ⟨rfl, rfl⟩, rfl, rfl⟩
 
@@ -625,15 +619,14 @@ theorem pbDec_data (st : St) (shape strides : List Int) (o : Order) (dt : String
   simp
 
 theorem fbDec_data (st : St) (shape strides : List Int) (o : Order) (dt : String) (cells : List Val)
-    (h0 : 0 ≤ totalSize shape) (hl : shape.length ≤ strides.length) :
+    (h0 : 0 ≤ totalSize shape) :
     fbDec st { shape := shape, strides := strides, o := o, dt := dt, data := cells } =
       .ok ({ st with heap := st.heap.push (rawFill (totalSize shape).toNat cells).toArray },
            { ap := { shape := shape, strides := strides, fin := true, o := o },
              win := ⟨st.heap.size, 0, (totalSize shape).toNat, (totalSize shape).toNat⟩, dt := dt }) := by
   unfold fbDec
-  have : ¬ strides.length < shape.length := by omega
   simp only [St.alloc, bind, Except.bind, pure, Except.pure, sanityOk_size shape h0]
-  simp [this]
+  simp
 
 theorem rawFill_length (n : Nat) (cells : List Val) : (rawFill n cells).length = n := by
   simp [rawFill]; omega
@@ -649,71 +642,70 @@ theorem pb_dec_enc (st : St) (t : Dense) (rec : Rec) (h : rawEnc st t = .ok rec)
   rw [pbDec_data _ _ _ _ _ _ h0]
   exact ⟨cells, _, _, hr, rfl, ⟨rfl, rfl, rfl, rfl, rfl, ⟨rfl, by simp [rawFill_length]⟩⟩⟩
 
-theorem fb_dec_enc (st : St) (t : Dense) (rec : Rec) (h : rawEnc st t = .ok rec) (h0 : 0 ≤ totalSize t.ap.shape)
-    (hl : t.ap.shape.length ≤ t.ap.strides.length) :
+theorem fb_dec_enc (st : St) (t : Dense) (rec : Rec) (h : rawEnc st t = .ok rec) (h0 : 0 ≤ totalSize t.ap.shape) :
     ∃ cells st' d, t.rawCells st = .ok cells ∧ fbDec st rec = .ok (st', d) ∧
       Decoded st st' d { shape := t.ap.shape, strides := t.ap.strides, fin := true,
                          o := { col := t.ap.o.col, nonContig := t.ap.o.nonContig } } t.dt
         (rawFill (totalSize t.ap.shape).toNat cells) := by
   obtain ⟨cells, hr, rfl⟩ := rawEnc_spec st t rec h
-  rw [fbDec_data _ _ _ _ _ _ h0 hl]
+  rw [fbDec_data _ _ _ _ _ _ h0]
   exact ⟨cells, _, _, hr, rfl, ⟨rfl, rfl, rfl, rfl, rfl, ⟨rfl, by simp [rawFill_length]⟩⟩⟩
-
-/-- F78: fewer strides than dimensions: `FBDecode` panics -/
-theorem fb_short_strides_panics (st : St) (t : Dense) (rec : Rec) (h : rawEnc st t = .ok rec)
-    (hl : t.ap.strides.length < t.ap.shape.length) : ∃ tag, fbDec st rec = .error (.panic tag) := by
-  obtain ⟨cells, _, rfl⟩ := rawEnc_spec st t rec h
-  unfold fbDec
-  simp only [hl, if_true]
-  exact ⟨_, rfl⟩
 
 /-! ### npy -/
 
 /-- element types that `WriteNpy` writes and `ReadNpy` reads back as the same type -/
-def NpGood (dt : String) : Prop := dt ∈ ["i8", "i16", "i32", "u8", "u16", "u32", "f32", "f64", "c64", "c128"]
+def NpGood (dt : String) : Prop := dt ∈ ["b", "i8", "i16", "i32", "u8", "u16", "u32", "f32", "f64", "c64", "c128"]
 
 theorem npGood_codes (dt : String) (h : NpGood dt) :
     ∃ code, npCode dt = some code ∧ code ∈ npCodes ∧ fromNpCode code = some dt ∧
-      (dt == "b") = false ∧ (dt == "i") = false ∧ (dt == "u") = false := by
+      (dt == "i") = false ∧ (dt == "u") = false := by
   simp only [NpGood, List.mem_cons, List.not_mem_nil, or_false] at h
-  rcases h with rfl | rfl | rfl | rfl | rfl | rfl | rfl | rfl | rfl | rfl
-  · exact ⟨"i1", rfl, by decide, rfl, by decide, by decide, by decide⟩
-  · exact ⟨"i2", rfl, by decide, rfl, by decide, by decide, by decide⟩
-  · exact ⟨"i4", rfl, by decide, rfl, by decide, by decide, by decide⟩
-  · exact ⟨"u1", rfl, by decide, rfl, by decide, by decide, by decide⟩
-  · exact ⟨"u2", rfl, by decide, rfl, by decide, by decide, by decide⟩
-  · exact ⟨"u4", rfl, by decide, rfl, by decide, by decide, by decide⟩
-  · exact ⟨"f4", rfl, by decide, rfl, by decide, by decide, by decide⟩
-  · exact ⟨"f8", rfl, by decide, rfl, by decide, by decide, by decide⟩
-  · exact ⟨"c8", rfl, by decide, rfl, by decide, by decide, by decide⟩
-  · exact ⟨"c16", rfl, by decide, rfl, by decide, by decide, by decide⟩
+  rcases h with rfl | rfl | rfl | rfl | rfl | rfl | rfl | rfl | rfl | rfl | rfl
+  · exact ⟨"b1", rfl, by decide, rfl, by decide, by decide⟩
+  · exact ⟨"i1", rfl, by decide, rfl, by decide, by decide⟩
+  · exact ⟨"i2", rfl, by decide, rfl, by decide, by decide⟩
+  · exact ⟨"i4", rfl, by decide, rfl, by decide, by decide⟩
+  · exact ⟨"u1", rfl, by decide, rfl, by decide, by decide⟩
+  · exact ⟨"u2", rfl, by decide, rfl, by decide, by decide⟩
+  · exact ⟨"u4", rfl, by decide, rfl, by decide, by decide⟩
+  · exact ⟨"f4", rfl, by decide, rfl, by decide, by decide⟩
+  · exact ⟨"f8", rfl, by decide, rfl, by decide, by decide⟩
+  · exact ⟨"c8", rfl, by decide, rfl, by decide, by decide⟩
+  · exact ⟨"c16", rfl, by decide, rfl, by decide, by decide⟩
+
+theorem iterCells_length (st : St) (t : Dense) (cells : List Val) (h : t.iterCells st = .ok cells) :
+    cells.length = t.offsets.length := by
+  unfold Dense.iterCells at h
+  exact mapM_ok_length _ _ _ h
 
 /-- `ReadNpy ∘ WriteNpy` on an unmasked tensor of any layout: the logical shape under row-major
-    strides over the first `size` cells of the **storage window** -/
+    strides over the source's **logical listing** (the cells the iterator visits, in its order) -/
 theorem npy_dec_enc (st : St) (t : Dense) (rec : Rec) (hm : t.mask = none) (hdt : NpGood t.dt)
-    (h : npyEnc st t = .ok rec) (h0 : 0 ≤ totalSize t.ap.shape) (hsz : totalSize t.ap.shape ≤ t.win.len) :
-    ∃ cells st' d, t.rawCells st = .ok cells ∧ npyDec st rec = .ok (st', d) ∧
+    (h : npyEnc st t = .ok rec) (h0 : 0 ≤ totalSize t.ap.shape)
+    (hsz : t.offsets.length = (totalSize t.ap.shape).toNat) :
+    ∃ cells st' d, t.iterCells st = .ok cells ∧ npyDec st rec = .ok (st', d) ∧
       Decoded st st' d { shape := t.ap.shape, strides := calcStrides t.ap.shape, fin := true, o := {} } t.dt
-        (cells.take (totalSize t.ap.shape).toNat) := by
-  obtain ⟨code, hc1, hc2, hc3, hb, hi, hu⟩ := npGood_codes t.dt hdt
+        cells := by
+  obtain ⟨code, hc1, hc2, hc3, hi, hu⟩ := npGood_codes t.dt hdt
   unfold npyEnc at h
   simp only [hc1, hm, bind, Except.bind, pure, Except.pure] at h
-  cases hr : t.rawCells st with
+  cases hr : t.iterCells st with
   | error e => simp [hr] at h
   | ok cells =>
     simp only [hr, hi, hu, Bool.or_self, Bool.false_and, Bool.false_eq_true, if_false] at h
     injection h with h
     subst h
-    have hlen := rawCells_length st t cells hr
+    have hlen := iterCells_length st t cells hr
     have hsize : ¬ cells.length < (totalSize t.ap.shape).toNat := by omega
+    have htake : List.take (totalSize t.ap.shape).toNat cells = cells := List.take_of_length_le (by omega)
     refine ⟨cells, ?_⟩
     unfold npyDec
-    simp only [Dense.shape, parseHdr_fmtHdr code hc2, String.ofList_toList, hc3, hb, hi, hu, Bool.or_self,
-      Bool.false_eq_true, if_false, hsize, St.alloc, bind, Except.bind, pure, Except.pure,
+    simp only [Dense.shape, parseHdr_fmtHdr code hc2, String.ofList_toList, hc3, hi, hu, Bool.or_self,
+      Bool.false_eq_true, if_false, hsize, htake, St.alloc, bind, Except.bind, pure, Except.pure,
       sanityOk_size _ h0]
     simp only [Bool.not_true, Bool.false_eq_true, if_false, true_and]
     refine ⟨_, _, rfl, ⟨rfl, rfl, rfl, rfl, rfl, ⟨rfl, ?_⟩⟩⟩
-    have : min (totalSize t.ap.shape).toNat cells.length = (totalSize t.ap.shape).toNat := by omega
+    have : (totalSize t.ap.shape).toNat = cells.length := by omega
     simp [this]
 
 theorem npyEnc_unsupported (st : St) (t : Dense) (h : npCode t.dt = none) :
@@ -751,6 +743,7 @@ theorem csvDec_rows (st : St) (dt : String) (first : List Val) (rest : List (Lis
   simp only [hdt, hany, hlast, St.alloc, bind, Except.bind, pure, Except.pure]
   simp
 
+/-- the `default` arm of `convFromStrs`: element types without a parser are refused by the reader -/
 theorem csvDec_unreadable (st : St) (dt : String) (first : List Val) (rest : List (List Val))
     (hdt : csvTypes.contains dt = false) : ∃ tag, csvDec st { dt := dt, rows := first :: rest } = .error (.err tag) := by
   unfold csvDec
